@@ -11,7 +11,29 @@ SYN = ("Modelled, not verified: logos' derived automaton as longest match + rule
        "callback and skip flags are regenerated from kind.rs); rowan's GreenNodeBuilder as a stack of open nodes; the translator xlate "
        "(Rust/syn -> DSL) is validated on every run by the differential of the generated model against parse_module. ")
 
+SCOPE = ("Modelled, not verified: parsing, HIR lowering (body.rs), salsa and the classification glue (semantics.rs) are exercised through "
+         "the real Analysis API by the differential, not modelled; the model covers ExprScopes (scope.rs), Resolver::resolve_name / "
+         "values_names_in_scope (resolver.rs) and the module value table. ")
+
 CHECKS = {
+ "C05": dict(
+  technique="Lean 4 refinement proof (scope arena vs environment semantics) over hand model M-scope + differential through go-to-definition",
+  text=("scopes_refine_spec: for every function body, resolving a name through the arena of scopes with parent pointers built by the model of "
+        "ExprScopes equals Gleam's rule stated as an environment-passing semantics (innermost binder, let/use invisible in their own initialiser, "
+        "clause/lambda/block bindings do not escape), at every occurrence; local_shadows_module, module_before_builtin, toplevel_order_independent "
+        "for the module value table (Props/C05.lean). Tie: model (Lean driver) vs real go-to-definition on generated multi-module workspaces with "
+        "heavy shadowing; the generator's binding-by-construction is the oracle. Four genuine defects of the unchanged tree are recorded "
+        "(guards, let with hole/literal pattern, qualified constants, import of a name that is both type and constructor). Qualified access "
+        "through inference and type-namespace resolution are covered by the oracle only (partial)."),
+  note=TB + SCOPE, ref="5.C05, 4.3"),
+ "C18": dict(
+  technique="Lean 4 proof that the two code paths (values_names_in_scope, resolve_name) agree, over M-scope + differential through completion",
+  text=("holes_refine_spec: the local names offered at every expression position are exactly those visible under Gleam's rules, each denoting the "
+        "innermost binder; completion_iff_resolvable: a name is offered iff resolve_name resolves it, to that very definition; completion_nodup; "
+        "buildValues_keys_nodup (Props/C18.lean). Tie: model vs real completions at every value occurrence of generated workspaces (expected set "
+        "by construction, replacement range = the identifier). Dot-completion (module members / fields) and signatures are not proved; two genuine "
+        "defects recorded (aliased imports rendered under the original name; value/type import clash)."),
+  note=TB + SCOPE, ref="5.C18, 4.3"),
  "C01": dict(
   technique="Lean 4 proof over the xlate-generated parser/lexer/tree-builder model + differential against parse_module",
   text=("Generic Lean theorems for every DSL program and every text: the lexer tiles its input with non-empty tokens (lex_tiles), only bump "
